@@ -414,9 +414,10 @@ class Harness:
 
     # ------------------------------------------------------------------ hooks (loop thread)
     def _flush_recv(self):
+        """the evaluation of a server push request (if one was running) has ended"""
         if self.recv_pending:
             self.recv_pending = False
-            self.labels.append("recv")
+            self.labels.append("served")
 
     def on_read_begin(self, n):
         if self.rstage == 0:
@@ -429,9 +430,13 @@ class Harness:
         elif self.rstage == 1:
             self.rstage = 2
         else:
+            # a complete frame: `_listen` now tests `msg_id in pending_responses` (same step)
             self.rstage = 0
-            self.recv_pending = True
+            self.labels.append("recv")
             fid = self.rid
+            uid0 = _uuid.UUID(int=fid) if fid is not None else None
+            if not dict.__contains__(self.nc.pending_responses, uid0) and bytes(data) != self.close_body:
+                self.recv_pending = True        # server push request: `served` when it ends
             if fid is not None and fid < len(self.callers):
                 c = self.callers[fid]
                 uid = _uuid.UUID(int=fid)
@@ -452,6 +457,11 @@ class Harness:
 
     def on_write(self, data):
         self.last_write_k = None
+        try:
+            if asyncio.current_task(self.loop) is self.run_task:
+                return          # the listener answering a push / echoing a close request
+        except RuntimeError:
+            pass
         if len(data) >= 20:
             fid = int.from_bytes(data[:16], "big")
             if fid < len(self.callers) and self.callers[fid].hphase == "submitted":
